@@ -149,7 +149,7 @@ class BootAdapter(ac.Adapter):
   op_exc = None
 
   def step(self, a, args):
-    if self.phase in ("startup", "main") and a in ("Register", "CallWhenReady", "ListenTo", "Release"):
+    if self.phase in ("startup", "main") and a in ("Register", "CallWhenReady", "ListenTo", "Release", "GetDeferral"):
       if self.phase == "startup" and len(self.slot_seen) >= NSLOTS:
         raise Machinery("behaviour has more start-up operations than slots")
       box = []
@@ -170,9 +170,12 @@ class BootAdapter(ac.Adapter):
     self.req.put(_CONTINUE)
     r = self._wait()
     if r[0] == "done":
-      # boot() returned without reaching the main function: goUp failed
-      e = self.boot_error
-      raise RuntimeError("pox.boot.boot() aborted during goUp: %r" % (e,))
+      # boot() returned without reaching the main function: goUp() raised.  When
+      # the Up handler's program ends in "raise" that is what goUp() may do (boot
+      # prints the traceback and gives up); anything else is reported.
+      if "ScriptedFailure" in self.captured.getvalue() and any(op["k"] == "raise" for op in self.upprog):
+        raise ac.ScriptedFailure("propagated through pox.boot.boot()")
+      raise RuntimeError("pox.boot.boot() aborted during goUp: %r" % (self.boot_error,))
 
   def _quit(self):
     if self.phase == "main":
